@@ -4,11 +4,19 @@
  *   -DFLAVOR_MEMB  : src/urcu.c with RCU_MEMBARRIER (sys_membarrier availability from VRT_MEMBARRIER=1|0)
  *   -DFLAVOR_QSBR  : src/urcu-qsbr.c
  *   -DFLAVOR_BP    : src/urcu-bp.c
+ *   -DGP_GENERIC_FUTEX (mb/memb): futex_async()/futex_noasync() are compat_futex_async()/compat_futex_noasync(), i.e. the
+ *                     generic branch of include/urcu/futex.h (lines 222-236, platforms without a futex system call);
+ *                     with VRT_FUTEX_ENOSYS=1 and no define the Linux ENOSYS fallback (both -> compat_futex_async) runs instead
  *   usage: d_gp <seed> <tso> <trace> <program-file>
  * program: "thread <name>" then ops: reg unreg lock unlock deref use pub <k> sync free qs offline online
  *          optional "sighandler" line: a signal handler doing lock; deref; use; unlock (C19)
  */
 #include "vrt_redirect.h"
+#ifdef GP_GENERIC_FUTEX
+#include <urcu/futex.h>
+#define futex_noasync compat_futex_noasync
+#define futex_async compat_futex_async
+#endif
 #if defined(FLAVOR_MB)
 #define RCU_MB
 #include REPO_SRC(urcu.c)
@@ -62,6 +70,39 @@ static void name_unknown(const char *var, unsigned long v)
 		vrt_name(&w->state, VK_INT, "wn.%s.state", vrt_self_name());
 	}
 }
+
+#if defined(FLAVOR_MB) || defined(FLAVOR_MEMB)
+/* C15: projection of the registry membership.  The three reader lists (registry, and the grace-period leader's cur_snap_readers /
+ * qsreaders on its stack) are plain data under rcu_registry_lock; list surgery never spans a scheduling point, so at any point
+ * where driver code runs every ring is consistent.  A reader is a member when its node is reachable from the registry head or
+ * from the node of a reader whose `registered` flag is set. */
+#define GP_PROJ 1
+static struct urcu_reader *readers[12];
+static int reader_of_node(struct cds_list_head *n)
+{
+	for (int i = 0; i < np; i++) if (readers[i] && &readers[i]->node == n) return i;
+	return -1;
+}
+static void log_members(void)
+{
+	int in[12] = { 0 }; char buf[200]; size_t o = 0;
+	for (int s = -1; s < np; s++) {
+		struct cds_list_head *start = s < 0 ? &registry : (readers[s] && readers[s]->registered) ? &readers[s]->node : NULL, *p;
+		int steps = 0;
+		if (!start || !start->next) continue;
+		for (p = start->next; p && p != start && steps < 64; p = p->next, steps++) {
+			int k = reader_of_node(p);
+			if (k >= 0) in[k] = 1;
+			if (p->next && p->next->prev != p) vrt_fail("ORACLE registry list corrupted: next/prev mismatch after the node of %s", k >= 0 ? P[k].name : "a list head");
+		}
+		if (!p || steps == 64) vrt_fail("ORACLE registry list corrupted: walk from %s does not return", s < 0 ? "the registry head" : P[s].name);
+		if (s >= 0) in[s] = 1;
+	}
+	buf[0] = 0;
+	for (int i = 0; i < np; i++) if (in[i]) o += snprintf(buf + o, sizeof buf - o, "%s\"%s\"", o ? "," : "", P[i].name);
+	vrt_log("\"op\":\"proj\",\"m\":[%s]", buf);
+}
+#endif
 
 static void check_use(const char *where)
 {
@@ -117,6 +158,9 @@ static void sig_handler(void)
 static void *runner(void *arg)
 {
 	struct prog *p = arg; me = p;
+#ifdef GP_PROJ
+	readers[p->idx] = &URCU_TLS(rcu_reader);
+#endif
 #ifdef FLAVOR_BP
 	/* bp registers lazily: name the reader word once it exists */
 #endif
@@ -130,6 +174,9 @@ static void *runner(void *arg)
 			vrt_name(&URCU_TLS(rcu_reader)->ctr, VK_GPCTR, "rctr.%s", p->name);
 #else
 			vrt_name(&URCU_TLS(rcu_reader).ctr, VK_GPCTR, "rctr.%s", p->name);
+#ifdef GP_PROJ
+			vrt_unquarantine(&URCU_TLS(rcu_reader));
+#endif
 #ifdef FLAVOR_QSBR
 			vrt_name(&URCU_TLS(rcu_reader).ctr, VK_INT, "rctr.%s", p->name);
 			vrt_name(&URCU_TLS(rcu_reader).waiting, VK_INT, "rwait.%s", p->name);
@@ -137,6 +184,9 @@ static void *runner(void *arg)
 			rcu_register_thread();
 #endif
 			vrt_op_end();
+#ifdef GP_PROJ
+			log_members();
+#endif
 			vrt_sig_allow(1);
 #ifdef FLAVOR_QSBR
 			open_cs[p->idx] = cs_next++;	/* qsbr: registered + online = inside an implicit section */
@@ -149,6 +199,11 @@ static void *runner(void *arg)
 			vrt_op_begin("rcu_unregister_thread", VP_BLOCKING);
 			rcu_unregister_thread();
 			vrt_op_end();
+#ifdef GP_PROJ
+			/* C15: the thread has left; its reader state (TLS) may disappear with it: any later access by a grace period is a UAF */
+			vrt_quarantine(&URCU_TLS(rcu_reader), sizeof(struct urcu_reader), "departed-reader-state");
+			log_members();
+#endif
 		} else if (!strcmp(o->kind, "lock")) {
 			vrt_op_begin("rcu_read_lock", VP_WAITFREE); do_lock(); vrt_op_end();
 		} else if (!strcmp(o->kind, "unlock")) {
@@ -227,6 +282,7 @@ int main(int argc, char **argv)
 	vrt_name_mutex(&gp_waiters.stack.lock, "waiters_lock");
 #endif
 	vrt_name_mutex(&rcu_gp_lock, "gp_lock"); vrt_name_mutex(&rcu_registry_lock, "registry_lock");
+	vrt_name_mutex(&__urcu_compat_futex_lock, "compat_lock");
 	vrt_set_unknown_ptr_hook(name_unknown);
 #ifdef FLAVOR_MEMB
 	/* the constructor ran before main (outside the model); re-evaluate availability from the environment */
